@@ -136,6 +136,51 @@ def hostile_split_sweep(c, inputs, sizes, tag="splitsweep"):
     return runs
 
 
+def timestamp_sweep_cli(c):
+    """entries whose cTIM / mTIM / aTIM hold every interesting number of seconds — the epoch, the recent past, the near
+    and far FUTURE (inside and outside what SystemTime and chrono can represent), the powers of two around the i32/u32/i64
+    limits — through every command that looks at times: no panic, no hang (fixes 30f27d2a, cf4c8d83 covered the
+    out-of-range end; seeded C07-5: `now - t` on durations panics for a timestamp later than now)"""
+    import time
+    core.build_harness(["mkarchive"]) if not os.path.exists(core.harness_bin("mkarchive")) else None
+    now = int(time.time())
+    vals = [0, 1, now - 86400 * 400, now - 86400, now - 1, now + 3600, now + 86400 * 200, now + 86400 * 400, 2**31 - 1, 2**31, 2**32 - 1, 2**32,
+            4102444800, 253402300799, 253402300800, 2**53, 2**62, 2**63 - 1, 2**63, 2**64 - 1]
+    runs = 0
+    with cli.Sandbox("times") as sb:
+        rows = []
+        for i, v in enumerate(vals):
+            for j, (ct, mt, at) in enumerate(((v, v, v), (v, "-", "-"), ("-", v, "-"))):
+                rows.append("\t".join(["entry", "0", ("t%02d_%d" % (i, j)).encode().hex(), b"x".hex(), "0", "0", "0", str(ct), str(mt), str(at), "-", "-", "-"]))
+        spec = sb.path("times.spec")
+        with open(spec, "w") as f:
+            f.write("\n".join(rows) + "\n")
+        a = sb.path("times.pna")
+        p = subprocess.run([core.harness_bin("mkarchive"), spec, a], stdout=subprocess.PIPE, stderr=subprocess.PIPE)
+        if p.returncode != 0:
+            raise RuntimeError("mkarchive failed: %r" % p.stderr[-300:])
+        os.makedirs(sb.path("t"))
+        open(sb.path("t", "probe"), "w").write("x")
+        cmds = [["list", a], ["list", "-l", a], ["list", "-l", "-T", a], ["list", "--format", "table", "--unstable", a],
+                ["list", "--format", "jsonl", "--unstable", a], ["list", "--format", "tree", "--unstable", a], ["list", "-l", "-@", "-e", a],
+                ["extract", a, "--out-dir", sb.path("o1"), "--overwrite", "--keep-timestamp"],
+                ["extract", a, "--out-dir", sb.path("o2"), "--overwrite"],
+                ["experimental", "update", a, "--newer-mtime", sb.path("t", "probe")], ["experimental", "update", a, "--older-mtime", sb.path("t", "probe")],
+                ["experimental", "stdio", "-t", "-f", a], ["strip", a, "--keep-timestamp", "--output", sb.path("s.pna")]]
+        for args in cmds:
+            r = cli.run_pna(args, cwd=sb.root, timeout=60)
+            runs += 1
+            if r["timeout"] or r["rc"] == 101 or (r["rc"] is not None and r["rc"] < 0):
+                what = "hangs (60 s)" if r["timeout"] else "panics (exit 101)" if r["rc"] == 101 else "killed by signal %d" % -r["rc"]
+                c.violations.append(("cli", "`pna %s` %s on an archive whose entries carry past, future and out-of-range timestamps" % (" ".join(args[:3]).replace(sb.root, "<sandbox>"), what),
+                                     "archive: 60 file entries with cTIM/mTIM/aTIM in %s (all three / cTIM only / mTIM only)\ncommand: %s\nstderr: %s"
+                                     % (vals, r["cmd"].replace(sb.root, "<sandbox>"), r["err"].decode("utf-8", "replace")[-600:]), True))
+    c.cov["evaluations"] += runs
+    c.cov["cli_runs"] = c.cov.get("cli_runs", 0) + runs
+    c.hist["cli:timestamp sweep"] = runs
+    return runs
+
+
 def truncated_cli(c, archives, cuts_per_archive):
     """C06: `pna list` / `pna extract` on every (sampled) proper prefix must fail, not succeed, not crash"""
     rnd = random.Random(c.seed)
